@@ -487,7 +487,7 @@ fn plan_strategy(_t: Tier) -> BoxedStrategy<PlanCase> {
 fn simple_query() -> impl Strategy<Value = Query> {
     (any::<u16>(), any::<u16>(), prop_oneof![3 => Just(Rest::None), 1 => (0u8..4).prop_map(Rest::HostEq), 1 => (0u8..3).prop_map(Rest::MetricEq)], prop_oneof![2 => Just(Proj::Star), 1 => Just(Proj::CountStar), 1 => (0u8..5, 0u8..3).prop_map(|(f, group)| Proj::Agg { f, group })]).prop_map(|(a, b, rest, proj)| {
         let (lo, hi) = if a <= b { (a, b) } else { (b, a) };
-        Query { win: Win::Range { lo: Bound { minute: lo, adj: 0, style: 0 }, lo_strict: false, lo_rev: false, hi: Bound { minute: hi, adj: 0, style: 0 }, hi_strict: false, hi_rev: false }, rest, proj, abandoned_after: None }
+        Query { win: Win::Range { lo: Bound { minute: lo, adj: 0, style: 0 }, lo_strict: false, lo_rev: false, hi: Bound { minute: hi, adj: 0, style: 0 }, hi_strict: false, hi_rev: false }, rest, proj, abandoned_after: None, limit: None }
     })
 }
 
